@@ -127,6 +127,7 @@ package bam
 
 // ReadIndex: magic and reference count, then the body through
 // internal.ReadIndex (under its own contract).
+//@ table baiMagic
 //@ func ReadIndex
 //@   mode bv
 //@   props C11
